@@ -318,32 +318,56 @@ func checkCopyHelperDeep(c *Ctx) {
 					}
 				}
 			})
-			changed := true
-			for changed {
-				changed = false
-				eachInstr(cno, func(in ssa.Instruction) {
-					v, ok := in.(ssa.Value)
-					if !ok || fromSrc[v] {
-						return
-					}
-					switch x := in.(type) {
-					case *ssa.Slice:
-						if fromSrc[x.X] {
-							fromSrc[v], changed = true, true
+			var propagate func(fn *ssa.Function, depth int)
+			propagate = func(fn *ssa.Function, depth int) {
+				changed := true
+				for changed {
+					changed = false
+					eachInstr(fn, func(in ssa.Instruction) {
+						v, ok := in.(ssa.Value)
+						if !ok || fromSrc[v] {
+							return
 						}
-					case *ssa.Phi:
-						for _, e := range x.Edges {
-							if fromSrc[e] {
+						switch x := in.(type) {
+						case *ssa.Slice:
+							if fromSrc[x.X] {
 								fromSrc[v], changed = true, true
 							}
+						case *ssa.Phi:
+							for _, e := range x.Edges {
+								if fromSrc[e] {
+									fromSrc[v], changed = true, true
+								}
+							}
+						case *ssa.Call:
+							if callName(x) == "builtin:append" && (fromSrc[x.Call.Args[0]] || fromSrc[x.Call.Args[1]]) {
+								fromSrc[v], changed = true, true
+							}
+							// a new helper of the copy function that is handed a source slice: its result is source-derived
+							// when the helper can return (a slice of) that parameter
+							if h := x.Call.StaticCallee(); h != nil && isNewHelper(h) && depth < 2 && len(h.Params) == len(x.Call.Args) {
+								seeded := false
+								for i, a := range x.Call.Args {
+									if fromSrc[a] && !fromSrc[h.Params[i]] {
+										fromSrc[h.Params[i]], seeded = true, true
+									}
+								}
+								if seeded {
+									propagate(h, depth+1)
+								}
+								for _, r := range returnsOf(h) {
+									for _, rv := range returnedValues(r) {
+										if fromSrc[rv] {
+											fromSrc[v], changed = true, true
+										}
+									}
+								}
+							}
 						}
-					case *ssa.Call:
-						if callName(x) == "builtin:append" && (fromSrc[x.Call.Args[0]] || fromSrc[x.Call.Args[1]]) {
-							fromSrc[v], changed = true, true
-						}
-					}
-				})
+					})
+				}
 			}
+			propagate(cno, 0)
 			// (a) slice fields of the result never receive a source-derived slice
 			eachInstr(cno, func(in ssa.Instruction) {
 				st, ok := in.(*ssa.Store)
@@ -403,7 +427,7 @@ func checkCopyHelperDeep(c *Ctx) {
 			})
 			// (b) every record stored anywhere is a dns.Copy result
 			n := 0
-			eachInstr(cno, func(in ssa.Instruction) {
+			eachInstrDeep(cno, func(g *ssa.Function, in ssa.Instruction) {
 				st, ok := in.(*ssa.Store)
 				if !ok {
 					return
@@ -411,7 +435,7 @@ func checkCopyHelperDeep(c *Ctx) {
 				if nm := namedOf(st.Val.Type()); nm == nil || nm.Obj().Name() != "RR" {
 					return
 				}
-				n++
+				n += bodyWeight(cno, g)
 				cl, isCall := st.Val.(*ssa.Call)
 				c.check(isCall && callName(cl) == "github.com/miekg/dns.Copy", "copy-record", instrPos(in), "record stored is dns.Copy(rr)",
 					"a record of the source message is stored into the copy without dns.Copy: the cached answer and the caller's answer share that record")
@@ -442,13 +466,15 @@ func checkRefreshOnEarlyCopy(c *Ctx) {
 			var why = "no ExecNext found in the refresh function"
 			if mc, ok := doChan.Call.Args[2].(*ssa.MakeClosure); ok {
 				fn := mc.Fn.(*ssa.Function)
-				tr := p.newTracer()
-				tr.throughParams, tr.throughFields, tr.throughCalls = false, false, false
-				eachInstr(fn, func(in ssa.Instruction) {
+				eachInstrDeep(fn, func(g *ssa.Function, in ssa.Instruction) {
 					ci, ok := in.(*ssa.Call)
 					if !ok || !strings.HasSuffix(callName(ci), ".ExecNext") {
 						return
 					}
+					tr := p.newTracer()
+					// inside a new helper of the refresh function the context is a parameter: follow it to the helper's
+					// only call site
+					tr.throughParams, tr.throughFields, tr.throughCalls = g != fn && g.Parent() == nil, false, false
 					args := callArgs(ci)
 					roots := tr.origins(args[len(args)-1])
 					good = len(roots) > 0
@@ -464,4 +490,21 @@ func checkRefreshOnEarlyCopy(c *Ctx) {
 			c.check(good, "refresh-on-copy@"+funcName(dl), instrPos(doChan), "refresh runs on qCtx.Copy() taken before the goroutine starts", why+": the refresh writes into the context of the query being answered")
 		}
 	}
+}
+
+// bodyWeight: how many times the code of g occurs in the body of root: 1 for root and its closures, the number of call
+// sites for a new helper that eachInstrDeep(root) looked into (one helper replacing three identical loops counts 3).
+func bodyWeight(root, g *ssa.Function) int {
+	r := g
+	for r.Parent() != nil {
+		r = r.Parent()
+	}
+	if r == root {
+		return 1
+	}
+	sites, _ := callSitesOf(r)
+	if len(sites) == 0 {
+		return 1
+	}
+	return len(sites)
 }
